@@ -218,8 +218,8 @@ func SerialiseCSV(rng *rand.Rand, f *CSVFile) []byte {
 // reported column type admits (Int / Float / Boolean / Time by strconv and time.Parse, String as
 // the text itself); an empty cell is NULL. unrepresentable=true is returned when the type admits
 // no reading at all (C24's subject; C23 generators do not produce such cells).
-func CompareCSV(path string, t octosql.Type, v octosql.Value, cell string, out *DiffSet) (unrepresentable bool) {
-	add := func(class, what string) { out.Add(Diff{path, class, what}) }
+func CompareCSV(path *Path, t octosql.Type, v octosql.Value, cell string, out *DiffSet) (unrepresentable bool) {
+	add := func(class, what string) { out.Add(Diff{path.String(), class, what}) }
 	if cell == "" {
 		if v.TypeID != octosql.TypeIDNull {
 			add("value", "empty cell produced "+ShowVal(v))
@@ -239,8 +239,8 @@ func CompareCSV(path string, t octosql.Type, v octosql.Value, cell string, out *
 	if f, err := strconv.ParseFloat(cell, 64); (err == nil || math.IsInf(f, 0)) && AdmitsID(t, octosql.TypeIDFloat) {
 		readings++
 		if v.TypeID == octosql.TypeIDFloat {
-			if d := floatDiff(path, v.Float, f, cell); d != nil {
-				out.Add(*d)
+			if !FloatEq(v.Float, f) {
+				out.Add(*floatDiff(path.String(), v.Float, f, cell))
 			}
 			return false
 		}
@@ -275,6 +275,6 @@ func CompareCSV(path string, t octosql.Type, v octosql.Value, cell string, out *
 	if readings == 0 {
 		return true
 	}
-	add("kind", fmt.Sprintf("cell %s under column type %s produced %s", trunc(strconv.Quote(cell), 200), t.String(), ShowVal(v)))
+	add("kind", fmt.Sprintf("cell %s under column type %s produced %s", trunc(strconv.Quote(cell), 200), TypeText(t), ShowVal(v)))
 	return false
 }
